@@ -46,8 +46,11 @@ class Rig:
                 rig.pending_discover = None
             locator._spas = [GeckoAsyncSpaDescriptor(b"SPA01:02:03:04:05:06", "Spa", ("10.0.0.1", 10022))] if found else []
 
+        self.spas = []                     # every spa object the manager ever created
+
         async def connect(spa):
             # emits what GeckoAsyncSpa._connect emits, step by step, on demand
+            rig.spas.append(spa)
             for k, name in enumerate(HANDSHAKE):
                 fut = loop.create_future()
                 rig.pending_connect = (fut, spa, k)
@@ -102,6 +105,10 @@ class Rig:
     def unpatch(self):
         for obj, name, old in reversed(self.patches):
             setattr(obj, name, old)
+
+    def abandoned_not_disconnected(self):
+        """spa objects the manager no longer references on which disconnect() never completed: whatever they hold (endpoint, tasks) is lost"""
+        return sum(1 for spa in self.spas if spa is not self.man._spa and not getattr(spa, "_disconnected", False))
 
     def snapshot(self):
         m = self.man
